@@ -8,6 +8,8 @@ from common import BIN, NCPU, mktemp_dir
 
 def run_cli(tool, args, cwd, env=None, timeout=30, stdin=None):
     e = {"PATH": BIN + ":/usr/bin:/bin", "HOME": cwd}
+    if os.environ.get("GOCOVERDIR"):
+        e["GOCOVERDIR"] = os.environ["GOCOVERDIR"]     # tools/coverage.py
     if env:
         e.update(env)
     try:
